@@ -5,10 +5,12 @@ import (
 	"fmt"
 	"sort"
 	"strings"
+	"sync"
 	"sync/atomic"
 	"time"
 
 	"github.com/containerd/nri/pkg/api"
+	"github.com/containerd/nri/pkg/zzverif/vsched"
 
 	"nriverif/lib/full"
 	"nriverif/lib/rep"
@@ -233,4 +235,170 @@ func engineAbandon(f *rep.Flags, res *rep.Result) {
 	res.Distinct = res.Evaluations
 	res.Bounds["cases"] = len(cases)
 	res.Sample(map[string]any{"case": cases[1], "expect": "plugin b's update waits for the callback of the departed plugin a"})
+}
+
+// Engine "restart" (C19): unsolicited updates on a stub that was stopped and
+// started again.  The connection-closed notification of the earlier session
+// is asynchronous: it is delivered as it comes, or held at the build-time gate
+// until the new session is up and then released.  In every session an update
+// must reach the runtime's callback exactly once, unchanged.
+func runRestart(prop string, held bool, sessions int) (viol []string, sig string) {
+	add := func(kind, f string, a ...any) {
+		viol = append(viol, fmt.Sprintf(f, a...))
+		if sig == "" {
+			sig = prop + "|restart|" + kind
+		}
+	}
+	mode := map[bool]string{false: "notification as it comes", true: "notification held until the next session is up"}[held]
+	rt, err := full.NewRuntime()
+	if err != nil {
+		return []string{"machinery: " + err.Error()}, "machinery"
+	}
+	defer rt.Close()
+	if err := rt.Start(); err != nil {
+		return []string{"machinery: " + err.Error()}, "machinery"
+	}
+	var seen int32
+	rt.OnUpdate = func(us []*api.ContainerUpdate) ([]*api.ContainerUpdate, error) {
+		if len(us) == 1 && us[0].ContainerId == "u" {
+			atomic.AddInt32(&seen, 1)
+		}
+		return nil, nil
+	}
+	pl := full.NewPlugin("10", "re")
+	var gmu sync.Mutex
+	var heldC []chan struct{}
+	gating := false
+	var reached int32
+	vsched.SetGate("stub.connClosed", func(obj any) {
+		if pl.Stub == nil || obj != any(pl.Stub) {
+			return
+		}
+		gmu.Lock()
+		if !gating {
+			gmu.Unlock()
+			return
+		}
+		ch := make(chan struct{})
+		heldC = append(heldC, ch)
+		gmu.Unlock()
+		atomic.AddInt32(&reached, 1)
+		<-ch
+	})
+	defer func() {
+		gmu.Lock()
+		gating = false
+		for _, ch := range heldC {
+			close(ch)
+		}
+		heldC = nil
+		gmu.Unlock()
+		if pl.Stub != nil {
+			pl.Stub.Stop()
+		}
+	}()
+	gmu.Lock()
+	gating = held
+	gmu.Unlock()
+	for s := 1; s <= sessions; s++ {
+		what := fmt.Sprintf("%s, session %d", mode, s)
+		var err error
+		if s == 1 {
+			err = pl.StartDial(rt)
+		} else {
+			err = pl.Restart()
+		}
+		if err != nil {
+			add("start-failed", "%s: Start failed: %v", what, err)
+			return
+		}
+		if held && s > 1 {
+			// the earlier session's notification is at the gate by now (or arrives there): release it
+			want := int32(s - 1)
+			for deadline := time.Now().Add(3 * time.Second); time.Now().Before(deadline) && atomic.LoadInt32(&reached) < want; time.Sleep(time.Millisecond) {
+			}
+			gmu.Lock()
+			for _, ch := range heldC {
+				close(ch)
+			}
+			heldC = nil
+			gmu.Unlock()
+			time.Sleep(10 * time.Millisecond)
+		}
+		before := atomic.LoadInt32(&seen)
+		done := make(chan error, 1)
+		go func() {
+			_, err := pl.Stub.UpdateContainers([]*api.ContainerUpdate{mkUpdate(0, "u", false)})
+			done <- err
+		}()
+		select {
+		case err := <-done:
+			if err != nil {
+				add("update-fails-after-restart", "%s: UpdateContainers on the started stub returned %v", what, err)
+				return
+			}
+		case <-time.After(8 * time.Second):
+			add("update-stuck", "%s: UpdateContainers did not return", what)
+			return
+		}
+		if got := atomic.LoadInt32(&seen) - before; got != 1 {
+			add("callback-count", "%s: the runtime's callback ran %d times for one update", what, got)
+			return
+		}
+		if !held {
+			// give a late notification of the previous session a chance to arrive, then try again
+			time.Sleep(15 * time.Millisecond)
+			before = atomic.LoadInt32(&seen)
+			if _, err := pl.Stub.UpdateContainers([]*api.ContainerUpdate{mkUpdate(0, "u", false)}); err != nil {
+				add("update-fails-after-restart", "%s: a second UpdateContainers returned %v", what, err)
+				return
+			}
+			if got := atomic.LoadInt32(&seen) - before; got != 1 {
+				add("callback-count", "%s: the runtime's callback ran %d times for one update", what, got)
+				return
+			}
+		}
+		pl.Stub.Stop()
+	}
+	return
+}
+
+func engineRestart(f *rep.Flags, res *rep.Result) {
+	res.Engine = "unsol/restart"
+	res.Rule = "a stub is started, stopped and started again (4 sessions; thorough 12) with the connection-closed notification of each earlier session delivered as it comes or held at the gate until the next session is up; in every session an unsolicited update reaches the runtime's callback exactly once and UpdateContainers returns no error"
+	sessions := 4
+	if f.Thorough() {
+		sessions = 12
+	}
+	for i, held := range []bool{false, true} {
+		if i%f.NShards != f.Shard {
+			continue
+		}
+		var v []string
+		var sig string
+		fails := 0
+		for try := 0; try < 3; try++ {
+			v, sig = runRestart(f.Prop, held, sessions)
+			if len(v) == 0 {
+				break
+			}
+			fails++
+			time.Sleep(100 * time.Millisecond)
+		}
+		res.Evaluations++
+		res.States += int64(sessions)
+		res.Transitions += int64(3 * sessions)
+		switch {
+		case fails == 0:
+		case fails < 3:
+			res.Notes = append(res.Notes, fmt.Sprintf("not reproduced three times in a row: held=%v: %s", held, v))
+		case sig == "machinery":
+			res.Exhaustive = false
+			res.Notes = append(res.Notes, fmt.Sprintf("case skipped: held=%v: %s", held, v[0]))
+		default:
+			res.Add(sig, strings.Join(v, "\n  "), map[string]any{"engine": "restart", "held": held})
+		}
+	}
+	res.Distinct = res.Evaluations
+	res.Bounds["sessions"] = sessions
 }
